@@ -124,7 +124,9 @@ def index(ctx: Any) -> List[Ob]:
         if isinstance(c, ast.Call) and call_name(c) in ('remove', 'discard') and c.args and any(isinstance(x, ast.Attribute) and self_attr(x, rme0) in ('types', 'servers') for x in ast.walk(c.func)):
             took.append(c.args[0])
     if put and took:
-        shapes_put, shapes_took = {_shape(x) for x in put}, {_shape(x) for x in took}
+        from .common import expand as _xp
+
+        shapes_put, shapes_took = {_shape(_xp(add, x)) for x in put}, {_shape(_xp(rem, x)) for x in took}
         obs.append(ob(R, rem, took[0], 'the value removed from an index bucket is the value that was put into it (the lower-cased key of the service)', shapes_put == shapes_took == {'.key'}, f'put {sorted(shapes_put)}, removed {sorted(shapes_took)}'))
     # has_entries
     st_add = [norm(s.value) for t, s in attr_stores(add.node) if t.attr == 'has_entries' and isinstance(s, ast.Assign)]
